@@ -395,6 +395,7 @@ func runMerge(c *ctx, which string) {
 	if which == "C12" {
 		syntheticFileGroups(c)
 		byteLimitMerges(c)
+		rowLimitShapeMerges(c)
 		keySetReconfigMerges(c)
 		mergeKeyCorrespondence(c)
 		c12MultiBatchBlocks(c)
@@ -402,6 +403,7 @@ func runMerge(c *ctx, which string) {
 	if which == "C11" {
 		c17CopiedExternal(c) // stored content survives a merge that copies an external writer's block verbatim
 		overlappingGroupMerges(c)
+		rowLimitShapeMerges(c)
 	}
 }
 
@@ -577,6 +579,92 @@ func byteLimitMerges(c *ctx) {
 			if ids[j] != 1 {
 				c.r.Add(Finding{Kind: "violation", Check: "rows-preserved", Detail: fmt.Sprintf("row %d stored %d times after the merge", j, ids[j]), Replay: replay})
 			}
+		}
+		env.Stop()
+	}
+}
+
+// rowLimitShapeMerges: k flushed files, each with one block of partition "a" of a random size and (in some files)
+// a one-row block of partition "b"; the merge runs with a MaxRowGroupRows that lets some pairs of the "a" blocks
+// combine and others not, so the greedy grouping skips blocks for the limit and absorbs later ones. Whatever it
+// builds, every stored row must be stored - and returned by a query - exactly once afterwards.
+func rowLimitShapeMerges(c *ctx) {
+	r := NewRng(c.seed, 117)
+	for i := 0; i < 30*c.scale; i++ {
+		cfg := bs.DefaultBloomSearchEngineConfig()
+		cfg.PartitionFunc = partitionFunc("p")
+		cfg.MaxBufferedTime = time.Hour
+		cfg.RowDataCompression = pick(r, []bs.CompressionType{bs.CompressionNone, bs.CompressionSnappy, bs.CompressionZstd})
+		cfg.MaxRowGroupRows = 1000
+		cfg.MaxFilesToMergePerOperation = 8
+		env := NewEnv(cfg)
+		h := &History{Env: env, Rows: map[int]*StoredRow{}}
+		limit := 4 + r.IntN(8)
+		k := 3 + r.IntN(3)
+		var sizes []int
+		id := 0
+		for j := 0; j < k; j++ {
+			sz := 1 + r.IntN(limit-1)
+			sizes = append(sizes, sz)
+			// rows of very different byte sizes from file to file: the order in which the merge visits blocks
+			// (by size in bytes) is then independent of their row counts
+			pad := strings.Repeat("a", pick(r, []int{0, 8, 200, 1024, 8192}))
+			var batch []map[string]any
+			for n := 0; n < sz; n++ {
+				id++
+				batch = append(batch, map[string]any{"_id": id, "p": "a", "w": fmt.Sprint("w", id), "pad": pad})
+			}
+			if r.Chance(0.6) {
+				id++
+				batch = append(batch, map[string]any{"_id": id, "p": "b", "w": fmt.Sprint("w", id)})
+			}
+			env.IngestWait(batch)
+		}
+		env.Cfg.MaxRowGroupRows = limit
+		env.Reopen()
+		_, merr := env.Eng.Merge(context.Background())
+		after, lerr := h.Layout()
+		replay := map[string]any{"block_rows_of_partition_a": sizes, "MaxRowGroupRows_at_merge": limit, "compression": string(cfg.RowDataCompression), "rows": id}
+		c.r.Case(true, fmt.Sprint("rowlimit-shapes", sizes, limit))
+		c.r.Hit("merge.rowlimit-shapes")
+		if merr != nil || lerr != nil {
+			c.r.Add(Finding{Kind: "violation", Check: "row-limit-merge-failed", Detail: fmt.Sprintf("merge %v / layout %v", merr, lerr), Replay: replay})
+			env.Stop()
+			continue
+		}
+		stored := map[int]int{}
+		for _, f := range after {
+			for _, b := range f.Blocks {
+				if b.Meta.Rows > limit {
+					// every source block has fewer rows than the limit, so a larger block was combined beyond it
+					c.r.Add(Finding{Kind: "violation", Check: "row-group-limits", Detail: fmt.Sprintf("combined block has %d rows; MaxRowGroupRows %d (source blocks of partition a: %v rows)", b.Meta.Rows, limit, sizes), Replay: replay})
+				}
+				for _, rid := range b.RowIDs {
+					stored[rid]++
+				}
+			}
+		}
+		out := env.Query(&bs.Query{})
+		returned := map[int]int{}
+		for _, row := range out.Rows {
+			if v, ok := row["_id"].(float64); ok {
+				returned[int(v)]++
+			}
+		}
+		for j := 1; j <= id; j++ {
+			if stored[j] != 1 {
+				c.r.Add(Finding{Kind: "violation", Check: "rows-preserved", Detail: fmt.Sprintf("row %d is stored %d times after the merge (blocks of %v rows in one partition, MaxRowGroupRows %d)", j, stored[j], sizes, limit), Replay: replay})
+				break
+			}
+		}
+		for j := 1; j <= id && out.Err == nil; j++ {
+			if returned[j] != 1 {
+				c.r.Add(Finding{Kind: "violation", Check: "e2e-multiplicity", Detail: fmt.Sprintf("after the merge a match-all query returned row %d %d times (stored once before the merge; blocks of %v rows in one partition, MaxRowGroupRows %d)", j, returned[j], sizes, limit), Replay: replay})
+				break
+			}
+		}
+		if out.Err != nil {
+			c.r.Add(Finding{Kind: "violation", Check: "e2e-query-failed", Detail: "match-all query after a healthy merge failed: " + out.Err.Error(), Replay: replay})
 		}
 		env.Stop()
 	}
